@@ -28,6 +28,8 @@ struct Chan<T> {
     receivers: usize,
     sent: u64,
     taken: u64,
+    /// receivers currently parked in a blocking `recv`
+    recv_waiting: usize,
 }
 
 type Shared<T> = Arc<Mutex<Chan<T>>>;
@@ -94,6 +96,7 @@ fn make<T>(cap: Option<usize>) -> (Sender<T>, Receiver<T>) {
         receivers: 1,
         sent: 0,
         taken: 0,
+        recv_waiting: 0,
     }));
     (Sender { ch: ch.clone() }, Receiver { ch })
 }
@@ -124,6 +127,62 @@ impl<T> SendError<T> {
         self.0
     }
 }
+
+#[derive(PartialEq, Eq, Clone, Copy)]
+pub enum TrySendError<T> {
+    Full(T),
+    Disconnected(T),
+}
+impl<T> fmt::Debug for TrySendError<T> {
+    fn fmt(&self, f: &mut fmt::Formatter<'_>) -> fmt::Result {
+        match self {
+            TrySendError::Full(..) => "Full(..)".fmt(f),
+            TrySendError::Disconnected(..) => "Disconnected(..)".fmt(f),
+        }
+    }
+}
+impl<T> fmt::Display for TrySendError<T> {
+    fn fmt(&self, f: &mut fmt::Formatter<'_>) -> fmt::Result {
+        match self {
+            TrySendError::Full(..) => "sending on a full channel".fmt(f),
+            TrySendError::Disconnected(..) => "sending on a disconnected channel".fmt(f),
+        }
+    }
+}
+impl<T: Send> std::error::Error for TrySendError<T> {}
+impl<T> TrySendError<T> {
+    pub fn into_inner(self) -> T {
+        match self {
+            TrySendError::Full(v) | TrySendError::Disconnected(v) => v,
+        }
+    }
+    pub fn is_full(&self) -> bool {
+        matches!(self, TrySendError::Full(_))
+    }
+    pub fn is_disconnected(&self) -> bool {
+        matches!(self, TrySendError::Disconnected(_))
+    }
+}
+impl<T> From<SendError<T>> for TrySendError<T> {
+    fn from(e: SendError<T>) -> Self {
+        TrySendError::Disconnected(e.0)
+    }
+}
+
+#[derive(PartialEq, Eq, Clone, Copy, Debug)]
+pub enum RecvTimeoutError {
+    Timeout,
+    Disconnected,
+}
+impl fmt::Display for RecvTimeoutError {
+    fn fmt(&self, f: &mut fmt::Formatter<'_>) -> fmt::Result {
+        match self {
+            RecvTimeoutError::Timeout => "timed out waiting on receive operation".fmt(f),
+            RecvTimeoutError::Disconnected => "channel is empty and disconnected".fmt(f),
+        }
+    }
+}
+impl std::error::Error for RecvTimeoutError {}
 
 #[derive(PartialEq, Eq, Clone, Copy, Debug)]
 pub struct RecvError;
@@ -247,6 +306,50 @@ impl<T> Sender<T> {
         }
     }
 
+    /// Non-blocking send: `Full` when a bounded channel holds `cap` messages (for a rendezvous
+    /// channel: when no receiver is blocked in `recv` right now), `Disconnected` when all
+    /// receivers are gone.
+    pub fn try_send(&self, msg: T) -> Result<(), TrySendError<T>> {
+        sched_point();
+        let mut g = lock(&self.ch);
+        let id = g.id;
+        if g.receivers == 0 {
+            drop(g);
+            sim_log(|| format!("try_send ch{id:x} -> disconnected"));
+            return Err(TrySendError::Disconnected(msg));
+        }
+        let room = match g.cap {
+            None => true,
+            Some(0) => g.recv_waiting > 0 && g.q.is_empty(),
+            Some(c) => g.q.len() < c,
+        };
+        if !room {
+            drop(g);
+            sim_log(|| format!("try_send ch{id:x} -> full"));
+            return Err(TrySendError::Full(msg));
+        }
+        g.sent += 1;
+        let t = g.sent;
+        g.q.push_back((t, msg));
+        drop(g);
+        wake(recv_key(id));
+        sim_log(|| format!("try_send ch{id:x} #{t}"));
+        Ok(())
+    }
+
+    pub fn capacity(&self) -> Option<usize> {
+        lock(&self.ch).cap
+    }
+    pub fn is_full(&self) -> bool {
+        let g = lock(&self.ch);
+        match g.cap {
+            None => false,
+            Some(c) => g.q.len() >= c,
+        }
+    }
+    pub fn same_channel(&self, other: &Sender<T>) -> bool {
+        Arc::ptr_eq(&self.ch, &other.ch)
+    }
     pub fn len(&self) -> usize {
         lock(&self.ch).q.len()
     }
@@ -342,10 +445,36 @@ impl<T> Receiver<T> {
                 sim_log(|| format!("recv ch{id:x} disconnected"));
                 return Err(RecvError);
             }
+            g.recv_waiting += 1;
             drop(g);
             sim_log(|| format!("recv ch{id:x} empty -> block"));
+            struct Waiting<'a, T>(&'a Shared<T>);
+            impl<T> Drop for Waiting<'_, T> {
+                fn drop(&mut self) {
+                    lock(self.0).recv_waiting -= 1;
+                }
+            }
+            let _w = Waiting(&self.ch);
             block_on(recv_key(id), "recv on an empty channel with live senders");
         }
+    }
+
+    /// The simulation has no clock for the library: a receive with a timeout is a receive that
+    /// gives the other threads one chance to run and then reports `Timeout` if nothing arrived.
+    pub fn recv_timeout(&self, _timeout: std::time::Duration) -> Result<T, RecvTimeoutError> {
+        match self.try_recv() {
+            Ok(m) => Ok(m),
+            Err(TryRecvError::Disconnected) => Err(RecvTimeoutError::Disconnected),
+            Err(TryRecvError::Empty) => match self.try_recv() {
+                Ok(m) => Ok(m),
+                Err(TryRecvError::Disconnected) => Err(RecvTimeoutError::Disconnected),
+                Err(TryRecvError::Empty) => Err(RecvTimeoutError::Timeout),
+            },
+        }
+    }
+
+    pub fn capacity(&self) -> Option<usize> {
+        lock(&self.ch).cap
     }
 
     pub fn iter(&self) -> Iter<'_, T> {
